@@ -178,6 +178,16 @@ impl Scenario for C08 {
             _ => {}
         }
         plan_transport(&mut rng, &mut p, false);
+        if rng.chance(1, 12) {
+            // the full decoder through the entry points it has of its own (str::parse, Beatmap::from_bytes,
+            // Beatmap::from_path): the same bytes, the same result
+            p.set("dec", 0);
+            p.set("t", *rng.pick(&[crate::transport::T_FROM_STR, crate::transport::T_FROM_STR, crate::transport::T_FROM_PATH, crate::transport::T_SLICE, crate::transport::T_FROM_PATH_PIPE]));
+            p.set("inherent", 1);
+            p.sched.clear();
+            p.eintr.clear();
+            p.p.remove("decoy");
+        }
         if rng.chance(1, 1500) && p.data.len() > 2 {
             // real-OS, real-time probe (rare: each costs 120 ms): a pipe whose writer pauses in the middle
             p.set("t", crate::transport::T_FROM_PATH_SLOWPIPE);
